@@ -321,6 +321,14 @@ PrePut(s, m) ==
 C11_PutIf_Step ==
   (ev'.type = "Put" /\ ev'.dom = "spec" /\ WellFormed(ev'.m) /\ PrePut(st, ev'.m)) => ev'.ok
 
+\* On traces the must-succeed clauses additionally require that the specification's own handler
+\* accepts the message: if a precondition written here were weaker than the handler (an error of
+\* this file, which TLC rules out only for the exhaustive configurations), the clause is silent
+\* instead of blaming the code.  lib/gen_traceprops.py wraps <name>_TStep when it exists.
+SpecAccepts(s, m) == \E r \in ApplySet(s, m) : r.ok
+C11_PutIf_TStep ==
+  (ev'.type = "Put" /\ ev'.dom = "spec" /\ WellFormed(ev'.m) /\ PrePut(st, ev'.m) /\ SpecAccepts(st, ev'.m)) => ev'.ok
+
 \* "earliest start date" is the start date of the BATCH (the basket row carries a
 \* copy of it, which must agree: C11_BasketDatesMatchBatches)
 C11_BasketDatesMatchBatches ==
@@ -900,6 +908,9 @@ PreOf(s, e) ==
 
 C18_NoFeatureDisabled_Step ==
   (ev'.dom = "spec" /\ WellFormed(ev'.m) /\ PreOf(st, ev')) => ev'.ok
+
+C18_NoFeatureDisabled_TStep ==
+  (ev'.dom = "spec" /\ WellFormed(ev'.m) /\ PreOf(st, ev') /\ SpecAccepts(st, ev'.m)) => ev'.ok
 
 C18_FeeExact_Prop          == [][C18_FeeExact_Step]_vars
 C18_NoFeatureDisabled_Prop == [][C18_NoFeatureDisabled_Step]_vars
